@@ -301,6 +301,126 @@ def column_accessors(tree):
 # ----------------------------------------------------------------------------------------------------------------- call spelling
 
 REGISTRY = {}
+NAMEDTUPLES = {}   # type name -> (field names, {field: default expr})
+
+
+def collect_namedtuples(trees):
+    """module-level `X = namedtuple("X", fields)` / `X = NamedTuple("X", [(f, T), ...])` / `class X(NamedTuple): f: T [= d]` definitions of the package"""
+    out = {}
+    for t in trees.values():
+        for s in t.body:
+            if isinstance(s, ast.Assign) and len(s.targets) == 1 and isinstance(s.targets[0], ast.Name) and isinstance(s.value, ast.Call):
+                d = (dotted(s.value.func) or "").split(".")[-1]
+                a = s.value.args
+                if d == "namedtuple" and len(a) >= 2:
+                    f = a[1]
+                    fields = None
+                    if isinstance(f, ast.Constant) and isinstance(f.value, str):
+                        fields = f.value.replace(",", " ").split()
+                    elif isinstance(f, (ast.List, ast.Tuple)) and all(isinstance(e, ast.Constant) and isinstance(e.value, str) for e in f.elts):
+                        fields = [e.value for e in f.elts]
+                    dk = [k.value for k in s.value.keywords if k.arg == "defaults"]
+                    dflt = {}
+                    if fields and dk and isinstance(dk[0], (ast.List, ast.Tuple)):
+                        for nm, dv in zip(fields[len(fields) - len(dk[0].elts):], dk[0].elts):
+                            dflt[nm] = dv
+                    if fields:
+                        out[s.targets[0].id] = (fields, dflt)
+                elif d == "NamedTuple" and len(a) == 2 and isinstance(a[1], (ast.List, ast.Tuple)):
+                    fields = [e.elts[0].value for e in a[1].elts if isinstance(e, ast.Tuple) and e.elts and isinstance(e.elts[0], ast.Constant)]
+                    if len(fields) == len(a[1].elts):
+                        out[s.targets[0].id] = (fields, {})
+            elif isinstance(s, ast.ClassDef) and any((dotted(b) or "").split(".")[-1] == "NamedTuple" for b in s.bases):
+                fields, dflt = [], {}
+                ok = True
+                for m in s.body:
+                    if isinstance(m, ast.AnnAssign) and isinstance(m.target, ast.Name):
+                        fields.append(m.target.id)
+                        if m.value is not None:
+                            dflt[m.target.id] = m.value
+                    elif isinstance(m, ast.FunctionDef):
+                        ok = False   # methods: not a plain record
+                if ok and fields:
+                    out[s.name] = (fields, dflt)
+    return out
+
+
+def lower_namedtuples(fn):
+    """Records are tuples: within one function, a name whose every binding is a constructor call of ONE namedtuple type (or None, or another such name)
+    has its `.field` accesses turned into constant subscripts, and the constructor calls become tuple displays (fields in declaration order, defaults
+    filled in).  Returns True if anything changed."""
+    if not NAMEDTUPLES:
+        return False
+    ctor = {}
+    for n in ast.walk(fn):
+        if isinstance(n, ast.Call) and isinstance(n.func, ast.Name) and n.func.id in NAMEDTUPLES:
+            fields, dflt = NAMEDTUPLES[n.func.id]
+            b = bind(n, (fields, dflt))
+            if b is not None:
+                ctor[id(n)] = (n, n.func.id, [b.get(f, dflt.get(f)) for f in fields])
+    if not ctor:
+        return False
+    binds = {}
+    for n in ast.walk(fn):
+        if isinstance(n, ast.Assign) and len(n.targets) == 1 and isinstance(n.targets[0], ast.Name):
+            binds.setdefault(n.targets[0].id, []).append(n.value)
+        elif isinstance(n, (ast.For, ast.AugAssign, ast.AnnAssign, ast.NamedExpr, ast.With, ast.comprehension)) or (isinstance(n, ast.Assign) and not (len(n.targets) == 1 and isinstance(n.targets[0], ast.Name))):
+            for x in ast.walk(n.target if hasattr(n, "target") else ast.Tuple(elts=list(getattr(n, "targets", [])) + [i.optional_vars for i in getattr(n, "items", []) if i.optional_vars is not None], ctx=ast.Store())):
+                if isinstance(x, ast.Name) and isinstance(x.ctx, ast.Store):
+                    binds.setdefault(x.id, []).append(None)
+    params = {a.arg for a in fn.args.args + fn.args.kwonlyargs + fn.args.posonlyargs}
+    typ = {}
+    changed = True
+    while changed:
+        changed = False
+        for name, vals in binds.items():
+            if name in typ or name in params:
+                continue
+            ts = set()
+            ok = True
+            for v in vals:
+                if v is None:
+                    ok = False
+                elif id(v) in ctor:
+                    ts.add(ctor[id(v)][1])
+                elif isinstance(v, ast.Constant) and v.value is None:
+                    continue
+                elif isinstance(v, ast.Name) and v.id in typ:
+                    ts.add(typ[v.id])
+                elif isinstance(v, ast.Name) and v.id in binds and v.id not in params:
+                    ok = False   # not known yet (maybe next round)
+                else:
+                    ok = False
+            if ok and len(ts) == 1:
+                typ[name] = next(iter(ts))
+                changed = True
+    did = False
+    for n in ast.walk(fn):
+        if isinstance(n, ast.Attribute) and isinstance(n.ctx, ast.Load) and isinstance(n.value, ast.Name) and n.value.id in typ and n.attr in NAMEDTUPLES[typ[n.value.id]][0]:
+            idx = NAMEDTUPLES[typ[n.value.id]][0].index(n.attr)
+            v = n.value
+            n.__class__ = ast.Subscript
+            del n.attr
+            n.value, n.slice, n.ctx = v, ast.Constant(value=idx), ast.Load()
+            did = True
+        elif isinstance(n, ast.Attribute) and isinstance(n.ctx, ast.Load) and id(n.value) in ctor and n.attr in NAMEDTUPLES[ctor[id(n.value)][1]][0]:
+            idx = NAMEDTUPLES[ctor[id(n.value)][1]][0].index(n.attr)
+            v = n.value
+            n.__class__ = ast.Subscript
+            del n.attr
+            n.value, n.slice, n.ctx = v, ast.Constant(value=idx), ast.Load()
+            did = True
+    for _, (n, tname, vals) in ctor.items():
+        if any(v is None for v in vals):
+            continue
+        for k in ("func", "args", "keywords"):
+            delattr(n, k)
+        n.__class__ = ast.Tuple
+        n.elts, n.ctx = vals, ast.Load()
+        did = True
+    if did:
+        ast.fix_missing_locations(fn)
+    return did
 
 
 def build_registry(trees):
